@@ -41,13 +41,21 @@ def jobs(tier, seed):
         for si in idx:
             for eng in ['MD', 'RDA', 'IG']:
                 out.append({'dom': 3, 'si': si, 'truth': ['pos', 'sparse'][si % 2], 'engine': eng, 'total': 'known' if si % 4 else 'none',
-                            'iters': 600, 'tau': 1e-2, 'seed': seed, 'prior': si % 2 == 1})
+                            'iters': 600, 'tau': 1e-2, 'seed': seed, 'prior': si % 2 == 1, 'listproj': si % 3 == 0})
+        for xi in range(len(EXTRA3)):
+            for eng in ['MD', 'RDA', 'IG']:
+                out.append({'dom': 3, 'si': 1000 + xi, 'truth': 'pos', 'engine': eng, 'total': 'known', 'iters': 600, 'tau': 1e-2, 'seed': seed,
+                            'listproj': xi % 2 == 1})
     else:
         for si in range(len(s3)):
             for tk in ['pos', 'sparse']:
                 for eng in ['MD', 'RDA', 'IG']:
                     for tot in ['known', 'none']:
-                        out.append({'dom': 3, 'si': si, 'truth': tk, 'engine': eng, 'total': tot, 'iters': 3000, 'tau': 1e-3, 'seed': seed, 'prior': tot == 'none'})
+                        out.append({'dom': 3, 'si': si, 'truth': tk, 'engine': eng, 'total': tot, 'iters': 3000, 'tau': 1e-3, 'seed': seed, 'prior': tot == 'none',
+                                    'listproj': tk == 'sparse'})
+        for xi in range(len(EXTRA3)):
+            for eng in ['MD', 'RDA', 'IG']:
+                out.append({'dom': 3, 'si': 1000 + xi, 'truth': 'sparse', 'engine': eng, 'total': 'none', 'iters': 3000, 'tau': 1e-3, 'seed': seed, 'listproj': xi % 2 == 0})
         s4 = M.structures(M.MENU4, 3)
         for si in range(0, len(s4), 2):
             for eng in ['MD', 'RDA', 'IG']:
@@ -55,8 +63,18 @@ def jobs(tier, seed):
     return out
 
 
+EXTRA3 = [
+    (('A', 'B'), ('B', 'A')),
+    (('B', 'A'), ('A', 'B'), ('B', 'C')),
+    (('C', 'A'), ('A', 'C'), ('B',)),
+    (('A', 'B', 'C'), ('C', 'A', 'B')),
+]
+
+
 def problem_for(job):
-    if job['dom'] == 3:
+    if job['dom'] == 3 and job['si'] >= 1000:
+        attrs, sizes, struct = M.ATTRS3, M.SIZES3, EXTRA3[job['si'] - 1000]
+    elif job['dom'] == 3:
         attrs, sizes, struct = M.ATTRS3, M.SIZES3, M.structures(M.MENU3, 3)[job['si']]
     else:
         attrs, sizes, struct = M.ATTRS4, M.SIZES4, M.structures(M.MENU4, 3)[job['si']]
@@ -77,7 +95,10 @@ def evaluate(job):
                 eng.iters = 5
                 eng.estimate(pj.fresh_measurements(), total=pj.T, engine=job['engine'])
             eng.iters = job['iters']
-        model = eng.estimate(prob.fresh_measurements(), total=prob.T if job['total'] == 'known' else None, engine=job['engine'])
+        ms_ = prob.fresh_measurements()
+        if job.get('listproj'):
+            ms_ = [(Q, y, s_, list(pr)) for (Q, y, s_, pr) in ms_]   # projections spelled as lists (order as given)
+        model = eng.estimate(ms_, total=prob.T if job['total'] == 'known' else None, engine=job['engine'])
     T = float(model.total)
     p = np.asarray(model.datavector(), dtype=float)
     fails = []
